@@ -74,3 +74,23 @@ void h_method_missing(void) {
   type_method_at_offset(T, C, 0, "m");
   ASSERT(0, "[C08][C12] method lookup of an unimplemented class or empty member does not return (ClassError instead of invoking anything)");
 }
+/* cast, type_of on NULL / on a corrupted or freed header: ValueError instead of invoking anything */
+void h_cast(void) {
+  var T = TYPE_UNDER_TEST;
+  struct { struct Header h; char body[8]; } O;
+  var obj = header_init(&O.h, T, AllocStack);
+  ASSERT(cast(obj, T) == obj, "[C08] cast to the object's own type is the identity");
+  ASSERT(cv_throws == 0, "no exception from an identity cast");
+  int in_case = nondet_int(); __CPROVER_assume(in_case >= 0 && in_case <= 3);
+  expect_throw = 1; expect_exc = ValueError;
+  COVER(in_case == 0, "cast to a different type"); COVER(in_case == 2, "bad magic number"); COVER(in_case == 3, "freed object");
+  if (in_case == 0) { cast(obj, T == Int ? Float : Int); }
+  else if (in_case == 1) { type_of(NULL); }
+#if CELLO_MAGIC_CHECK == 1
+  else if (in_case == 2) { O.h.magic = (var)0x1234; type_of(obj); }
+  else { O.h.magic = (var)0xDeadCe110; type_of(obj); }
+#else
+  else { cast(obj, T == Int ? Float : Int); }
+#endif
+  ASSERT(0, "[C08][C12] cast to a different type, type_of(NULL) and type_of of a corrupted or freed object raise ValueError instead of returning");
+}
